@@ -10,11 +10,13 @@ No verdict is computed in Python.
 import hashlib
 import json
 import os
+import shutil
 from concurrent.futures import ThreadPoolExecutor
 
 import pipeline as pl
 
 BFS_WORKERS = int(os.environ.get('VERIF_TLC_WORKERS', '6'))
+GEN_PARALLEL = int(os.environ.get('VERIF_GEN_PARALLEL', '3'))     # TLC generator runs side by side
 
 ALL_CODECS = ['ber', 'der', 'per', 'uper', 'oer', 'jer', 'xer', 'gser']
 
@@ -27,23 +29,54 @@ def gen_cfg(spec, inv, max_depth, rich, tagdefs, extra=''):
                 spec, max_depth, 'TRUE' if rich else 'FALSE', ', '.join('"%s"' % t for t in tagdefs), extra, inv))
 
 
+GEN_MODULES = ['BigInt.tla', 'Bits.tla', 'Asn1Type.tla', 'Asn1Value.tla', 'TypeGen.tla', 'Constraints.tla',
+               'ConGen.tla', 'CorruptRules.tla', 'Corrupt.tla']
+CACHE = os.path.join(pl.VERIF, '.cache')
+
+
+def cached_generate(run, module, cfg, out_name, what, **kw):
+    """pl.tlc_generate, with the emitted behaviours cached under /verif/.cache keyed by the text of
+    the generator modules, the cfg and the TLC mode/seed (DESIGN 2.9).  The generators do not depend
+    on the code under test, so a hit is exact; VERIF_NO_CACHE=1 disables it.  A hit accounts the
+    states of the TLC run that produced the file and is marked '(cached)' in the evidence."""
+    h = pl.spec_digest(GEN_MODULES)
+    h.update(json.dumps([module, cfg, kw.get('simulate'), kw.get('depth'), run.seed if kw.get('simulate') else 0]).encode())
+    key = os.path.join(CACHE, 'gen-%s-%s' % (module, h.hexdigest()[:24]))
+    out = run.path(out_name)
+    if not os.environ.get('VERIF_NO_CACHE') and os.path.exists(key + '.ndjson') and os.path.exists(key + '.json'):
+        shutil.copy(key + '.ndjson', out)
+        with open(key + '.json') as f:
+            res = json.load(f)
+        run.account(res, what + ' (cached)')
+        run.notes['generator_cache_hits'] = run.notes.get('generator_cache_hits', 0) + 1
+        return out, res
+    out, res = pl.tlc_generate(run, module, cfg, out_name, what=what, **kw)
+    os.makedirs(CACHE, exist_ok=True)
+    tmp = key + '.tmp%d' % os.getpid()
+    shutil.copy(out, tmp)
+    os.replace(tmp, key + '.ndjson')
+    with open(key + '.json', 'w') as f:
+        json.dump({'distinct': res['distinct'], 'generated': res['generated'], 'wall': res['wall']}, f)
+    return out, res
+
+
 def generate(run, module, spec, inv, plan, prefix, extra='', also=None):
     """plan: list of ('bfs', depth, rich, tagdefs) / ('sim', 'num=..', depth, rich, tagdefs).
-    The TLC runs of a plan are independent and run side by side; `also` = extra thunks run with them."""
+    The TLC runs of a plan are independent and run side by side (GEN_PARALLEL of them);
+    `also` = extra thunks run with them."""
     def one(n_step):
         n, step = n_step
         if step[0] == 'bfs':
             _, d, rich, tds = step
-            out, _ = pl.tlc_generate(run, module, gen_cfg(spec, inv, d, rich, tds, extra), '%s%d.ndjson' % (prefix, n),
-                                     workers=BFS_WORKERS, what='%s BFS depth<=%d rich=%s tagdefs=%s' % (module, d, rich, tds))
+            out, _ = cached_generate(run, module, gen_cfg(spec, inv, d, rich, tds, extra), '%s%d.ndjson' % (prefix, n),
+                                     what='%s BFS depth<=%d rich=%s tagdefs=%s' % (module, d, rich, tds), workers=BFS_WORKERS)
         else:
             _, num, d, rich, tds = step
-            out, _ = pl.tlc_generate(run, module, gen_cfg(spec, inv, d, rich, tds, extra), '%s%d.ndjson' % (prefix, n),
-                                     workers=1, simulate=num, depth=d + 1,
-                                     what='%s simulate %s depth %d' % (module, num, d))
+            out, _ = cached_generate(run, module, gen_cfg(spec, inv, d, rich, tds, extra), '%s%d.ndjson' % (prefix, n),
+                                     what='%s simulate %s depth %d' % (module, num, d), workers=1, simulate=num, depth=d + 1)
         return pl.dedup_cases(out, '%s%d' % (prefix, n))
     cases = []
-    with ThreadPoolExecutor(max_workers=4) as ex:
+    with ThreadPoolExecutor(max_workers=GEN_PARALLEL) as ex:
         extra_f = [ex.submit(f) for f in (also or [])]
         for part in ex.map(one, list(enumerate(plan))):
             cases += part
@@ -79,7 +112,9 @@ def type_hash(line):
 def c11(tier, seed):
     run = pl.Run('C11', tier, seed)
     try:
-        if tier == 'quick':
+        if tier.startswith('smoke'):       # smoke0 / smoke1: BFS to that depth only (sensitivity demonstrations)
+            plan = [('bfs', int(tier[5:] or 0), False, ['A'])]
+        elif tier == 'quick':
             plan = [('bfs', 1, False, ['A']), ('sim', 'num=4', 4, False, ['E'])]
         else:
             plan = [('bfs', 2, False, ['A', 'E']), ('bfs', 1, True, ['I']), ('sim', 'num=400', 6, True, ['E', 'I', 'A'])]
@@ -145,10 +180,15 @@ def c12(tier, seed):
     run = pl.Run('C12', tier, seed)
     try:
         all_taus = '{"None", "bool", "int", "float", "str", "bytes", "list", "dict", "tuple0", "tuple3", "tuple2s", "tuple2b"}'
-        if tier == 'quick':
+        quick_taus = '{"None", "int", "float", "str", "bytes", "list", "dict", "tuple0", "tuple2b"}'
+        if tier.startswith('smoke'):       # smoke0 / smoke1: BFS to that depth only, no model check
+            plan = [('bfs', int(tier[5:] or 0), False, ['A'])]
+            mc = None
+            taus = quick_taus
+        elif tier == 'quick':
             plan = [('bfs', 1, False, ['A']), ('sim', 'num=2', 3, False, ['E'])]
             mc = (0, False)
-            taus = '{"None", "int", "float", "str", "bytes", "list", "dict", "tuple2b"}'
+            taus = quick_taus
         else:
             plan = [('bfs', 2, False, ['A', 'E']), ('bfs', 1, True, ['I']), ('sim', 'num=300', 6, True, ['E', 'I', 'A'])]
             mc = (1, False)
@@ -157,8 +197,10 @@ def c12(tier, seed):
         # (M) the transition system itself: every reachable corrupt state is applicable and its expected
         # path leads to the corrupted component (small constants, exhaustive)
         def model_check():
+            if mc is None:
+                return
             cfg = gen_cfg('CorSpec', 'CorruptStateOk', mc[0], mc[1], ['A'], '  Stages = TRUE\n  Taus = %s\n' % all_taus)
-            _, res = pl.tlc_generate(run, 'Corrupt', cfg, 'mc.ndjson', workers=BFS_WORKERS,
+            _, res = cached_generate(run, 'Corrupt', cfg, 'mc.ndjson', workers=BFS_WORKERS,
                                      what='Corrupt model check (PickValue, CorruptAt) depth<=%d' % mc[0])
             run.notes['model_check_states'] = res['distinct']
 
